@@ -430,6 +430,7 @@ func (p *IdP) Rotate(publish, keepOld bool) {
 		}
 	}
 	p.Rotations++
+	p.LastRotation = time.Now()
 }
 
 // execCB delivers a (possibly forged, swapped or replayed) callback.
